@@ -34,7 +34,10 @@ func newWorld(accts []*Acct, rest []*big.Int) *env.Env {
 
 // supplyRest draws the symbolic amount of coins held outside the harness accounts, per denomination.
 func supplyRest() []*big.Int {
-	return []*big.Int{env.Amount("supplyRest.evm", 130), env.Amount("supplyRest.other", 130)}
+	r := []*big.Int{env.Amount("supplyRest.evm", 130), env.Amount("supplyRest.other", 130)}
+	// somebody outside the harness holds coins too (keeps the supply entries from being deleted: fewer paths)
+	verif.Assume(r[0].Sign() > 0 && r[1].Sign() > 0)
+	return r
 }
 
 func setSuppliesWith(e *env.Env, accts []*Acct, rest []*big.Int) {
@@ -59,6 +62,9 @@ func H_C03_1_Erase() { eraseHarness(false, false, allOps, allOps) }
 
 // journalOps are the operations whose effect lives in the StateDB's own revertible fields (not in the stores).
 var journalOps = []int{OpAddLog, OpAddRefund, OpSubRefund, OpAddAddressToAccessList, OpAddSlotToAccessList, OpSetTransientState, OpSuicide}
+
+// keepOps: one representative per mechanism for the keep (no revert) harness of the quick tier
+var keepOps = []int{OpAddBalance, OpSetNonce, OpSetState, OpSuicide, OpCreateAccount, OpAddLog, OpAddRefund, OpAddSlotToAccessList, OpSetTransientState, OpKeeperWrite}
 
 // H_C03_1a_EraseJournalPQ: a prefix operation P before the snapshot, both drawn from the journal operations
 // (quick tier: catches state shared between the live StateDB and its snapshot copies).
@@ -174,12 +180,12 @@ func H_C03_2_Nesting() {
 // H_C03_3_Keep: Snapshot(); Q (no revert)  ==  Q : effects of frames that completed are all kept,
 // observed before and after CommitMultiStore in the original context.
 func H_C03_3_Keep() {
-	a := NewAcct("a", plainKinds, true, true, false)
+	a := NewAcct("a", plainKinds, false, false, false)
 	b := NewAcct("b", plainKinds, false, false, false)
 	accts := []*Acct{a, b}
 	verif.Assume(a.Addr != b.Addr)
 	addrs := []common.Address{a.Addr, b.Addr}
-	q := NewOp("Q", allOps, addrs)
+	q := NewOp("Q", keepOps, addrs)
 	nsnap := 1 + verif.Choice("extraSnapshots", 2)
 
 	rest := supplyRest()
